@@ -104,7 +104,7 @@ PROPS = {
         "level": "exploration",
         "units": [
             U("c10", "TestGatedApply", T(8, 16, 300, shrinktime="30s"), T(15, 80, 900, shrinktime="120s"), needs=["nodeexec"]),
-            U("c10", "TestRaceStress", T(2, 4, 300, shrinktime="20s"), T(3, 32, 900, shrinktime="60s"), needs=["nodeexec.race"]),
+            U("c10", "TestRaceStress", T(2, 4, 400, shrinktime="20s"), T(3, 32, 900, shrinktime="60s"), needs=["nodeexec.race"]),
         ],
     },
     "C11": {
